@@ -188,6 +188,22 @@ def t_indexed_switch(E):
         E.prove("C17.ChoiceMap.switch.only_the_indexed_branch_is_visible", E.Implies(inr, E.And(
             px == (k.t == 0), py == (k.t == 1), E.Implies(k.t == 0, E.eq(vx, a)) if vx is not None else k.t != 0,
             E.Implies(k.t == 1, E.eq(vy, b)) if vy is not None else k.t != 1)))
+    # branches WITHOUT choices keep their position: switch over (empty, {x}, {y}) and ({x}, empty, {y})
+    for tag, order in (("empty_first", (None, "x", "y")), ("empty_in_the_middle", ("x", None, "y"))):
+        k3 = E.int("k3")
+        mk = {None: lambda: E.call(C_ + "ChoiceMap.empty"), "x": lambda: E.call(C_ + "ChoiceMap.kw", x=a),
+              "y": lambda: E.call(C_ + "ChoiceMap.kw", y=b)}
+        g3 = E.attempt(lambda: E.call(C_ + "ChoiceMap.switch", k3, [mk[o]() for o in order]))
+        if g3[0] != "ok":
+            continue
+        px, vx = lookup(E, g3[1], ("x",))
+        py, vy = lookup(E, g3[1], ("y",))
+        ix_, iy_ = order.index("x"), order.index("y")
+        E.prove(f"C17.ChoiceMap.switch.a_branch_without_choices_keeps_its_position[{tag}]",
+                E.Implies(z3.And(k3.t >= 0, k3.t < 3), E.And(
+                    px == (k3.t == ix_), py == (k3.t == iy_),
+                    E.Implies(k3.t == ix_, E.eq(vx, a)) if vx is not None else k3.t != ix_,
+                    E.Implies(k3.t == iy_, E.eq(vy, b)) if vy is not None else k3.t != iy_)), also=["C13"])
     E.refutable("chm.indexed_switch", present)
 
 
